@@ -2,7 +2,7 @@ import os
 import stat
 import subprocess
 
-from pygopherd import gopherentry
+from pygopherd import GopherExceptions, gopherentry
 from pygopherd.handlers.base import VFS_Real
 from pygopherd.handlers.virtual import Virtual
 
@@ -24,6 +24,14 @@ class ExecHandler(Virtual):
         entry.setmimetype("text/plain")
         entry.setgopherpsupport(0)
         return entry
+
+    def prepare(self):
+        # Neither an argument nor an environment variable can hold a NUL:
+        # say so before a status is sent, not from inside write().
+        if "\0" in (self.searchrequest or "") or "\0" in (self.selectorargs or ""):
+            raise GopherExceptions.FileNotFound(
+                self.selector, "a NUL can not be passed to a program", self.protocol
+            )
 
     def write(self, wfile):
         newenv = os.environ.copy()
